@@ -127,6 +127,43 @@ func c14(c *ctx) {
 		}
 		conc = append(conc, corpus.Req{Mode: "conc", Conc: subs, Gor: 16, Reps: max(1, reps/4)})
 	}
+	// (c) instances printing their syntax trees to the process's standard output at the same time: the bytes that arrive
+	// must be exactly the bytes of the individual outputs (compared as a byte histogram), no panic, no race
+	printBatch := len(conc)
+	wantHist := map[string]int{}
+	{
+		var subs []corpus.Req
+		for j, q := range seq {
+			if !sks[j].hist && !variantOf[sks[j].p.cs.id].noast && seqRes[j].OK && sks[j].memo && len(subs) < 24 {
+				q2 := sub(q)
+				q2.PrintRaw = true
+				subs = append(subs, q2)
+			}
+		}
+		// the expected output of one call = its sequential SprintSyntaxTree text (PrintSyntaxTree prints the same, coloured if Pretty)
+		for _, q := range subs {
+			one := corpus.Req{Pkg: q.Pkg, Entry: -1, In: q.In, Memo: q.Memo, Pretty: q.Pretty, Size: q.Size, Stdout: true}
+			r1, err := cp.Run([]corpus.Req{one}, corpus.RunOpts{Workers: 1, CPUSeconds: 300})
+			if err != nil || r1[0].Lost {
+				continue
+			}
+			text := r1[0].Stdout
+			if q.Pretty {
+				text = r1[0].PStdout
+				if !q.Pretty {
+					text = r1[0].Stdout
+				}
+			}
+			// Stdout was captured with p.Pretty as initialised, PStdout with the flag flipped
+			text = r1[0].Stdout
+			for _, b := range []byte(text) {
+				wantHist[fmt.Sprint(b)] += 8 * 6 // Gor * Reps below
+			}
+		}
+		if len(subs) > 0 {
+			conc = append(conc, corpus.Req{Mode: "conc", Conc: subs, Gor: 8, Reps: 6, Print: true})
+		}
+	}
 	concRes, err := cp.Run(conc, corpus.RunOpts{Workers: 4, CPUSeconds: 3000, WallSeconds: 3000})
 	if err != nil {
 		die("concurrent run: %v", err)
@@ -140,6 +177,20 @@ func c14(c *ctx) {
 		if res.Fatal != "" {
 			c.run.Violate("fatal:"+report.Hash(fmt.Sprint(i)), "process died while instances ran concurrently: "+firstLine(res.Fatal), map[string]any{"batch": i, "stderr": res.Fatal})
 			continue
+		}
+		if i == printBatch && q.Print {
+			c.run.Count("concurrent_print_calls", res.Calls)
+			if fmt.Sprint(res.StdoutHist) != fmt.Sprint(wantHist) {
+				nb, nw := 0, 0
+				for _, v := range res.StdoutHist {
+					nb += v
+				}
+				for _, v := range wantHist {
+					nw += v
+				}
+				c.run.Violate("print-concurrent", fmt.Sprintf("instances printing their syntax trees to standard output concurrently: %d bytes arrived, %d expected (or the byte histogram differs)", nb, nw),
+					map[string]any{"goroutines": q.Gor, "repetitions": q.Reps, "bytes_arrived": nb, "bytes_expected": nw})
+			}
 		}
 		c.run.Count("concurrent_calls", res.Calls)
 		c.run.Count("calls_overlapping_another_goroutine", res.Overlap)
@@ -177,12 +228,13 @@ func c14(c *ctx) {
 	}
 	c.run.Count("race_reports", len(seen))
 	c.run.Extra["race_detector"] = "runner built with -race (GORACE=halt_on_error=0); reports are read from the child's stderr"
-	requireCov(c, "concurrent_calls", "calls_overlapping_another_goroutine", "concurrent_batches")
-	if c.run.Counters["calls_overlapping_another_goroutine"]*4 < c.run.Counters["concurrent_calls"] {
-		c.run.Incon("fewer than a quarter of the concurrent calls actually overlapped another goroutine")
+	requireCov(c, "concurrent_calls", "calls_overlapping_another_goroutine", "concurrent_batches", "concurrent_print_calls")
+	// an absolute floor, not a fraction: how many calls overlap depends on the machine's load, the verdict must not
+	if c.run.Counters["calls_overlapping_another_goroutine"] < 2000 {
+		c.run.Incon("fewer than 2000 concurrent calls actually overlapped a call of another goroutine")
 	}
 	c.run.Rule = "cases: parser types generated from shared-prefix grammars (captures, actions, memo revisits, half with rule-entry observers; a third generated with -noast, whose inline actions read the captured text); instances are initialised with fresh option values or with option values shared by all instances of the type (Size 4/64, DisableMemoize, Pretty); each (parser, input, memo on/off, Pretty on/off) and a long-lived Reset history are first run alone; then the same requests are run from 2, 8 or 32 goroutines at once (same type with same and different inputs; 8 different types interleaved), each goroutine on its own instances, Init/Parse/Execute/AST/SprintSyntaxTree/Error, under the race detector. The goroutines share nothing with the monitor while running (results merged after join; overlap computed afterwards from monotonic timestamps). " +
-		"Oracle: every concurrent result equals the result alone (verdict, tokens, tree, printed tree, trace, observer log, error token, message); zero race reports. " +
+		"A last batch lets 8 goroutines call PrintSyntaxTree() on the shared standard output at once and compares the byte histogram of what arrived with the sum of the individual outputs. Oracle: every concurrent result equals the result alone (verdict, tokens, tree, printed tree, trace, observer log, error token, message); zero race reports. " +
 		"distinct_nontrivial = distinct (parser, input, config, goroutine count) executed in a batch in which calls of different goroutines overlapped in time."
 	c.run.Assume("schedules are those the Go scheduler produced on this machine (GOMAXPROCS = all cores) with Gosched perturbation; not replayable bit for bit")
 }
